@@ -103,10 +103,12 @@ Theorem pending_action_at_init_before_fix_refuted :
 Proof. exact ConfigFacts.pending_action_at_init_before_fix_refuted. Qed.
 Print Assumptions pending_action_at_init_before_fix_refuted.
 
-(* NOT MECHANISED (reconfig_safety is therefore partial): that election safety and commit stability
-   (C01, C02) hold under membership changes.  What is proved: each step changes the voter set by at
-   most one node and majorities of adjacent configurations intersect; a step is taken only when the
-   previous configuration and an own-term entry are committed.  What is missing: the derivation,
-   from these rules, that any two configurations under which two nodes win or commit in the same
-   term have intersecting majorities (the hypothesis called H_overlap in DESIGN.md), i.e. the
-   cross-leader argument of the single-server-change protocol. *)
+(* The cross-leader argument - that election safety, leader completeness and state-machine safety
+   (C01, C02, C03) hold under membership changes - is mechanised in Props/C08_abs.v on the abstract
+   protocol Abs/CfgRaft.v, whose reconfiguration step has exactly the guards proved above for the
+   node model (previous configuration committed, an own-term entry committed, voter sets one node
+   apart), and whose variant without the own-term guard is refuted there.  What links the two levels:
+   the theorems of this file (the node model takes a reconfiguration step only under those guards,
+   and every derived configuration is adjacent) and the per-event correspondence of the node model
+   with the code.  Not covered by Abs/CfgRaft.v: loss of the unflushed tail at a crash and snapshots
+   (they are in Abs/Raft.v, for a static voter set). *)
